@@ -513,8 +513,7 @@ def liveness(k, tier):
 
 STRESS = {
     "quick": dict(Caps="{1, 2, 64}", NProds="{2, 4}", Mixes='{"mixed", "clone"}', Ops=16, chunks=4),
-    "thorough": dict(Caps="{1, 2, 3, 4, 8, 64}", NProds="{1, 2, 3, 4}", Mixes='{"send", "try", "many", "mixed", "clone"}',
-                     Ops=40, chunks=8),
+    "thorough": dict(Caps="{1, 2, 3, 8, 64}", NProds="{1, 2, 3, 4}", Mixes='{"try", "mixed", "clone"}', Ops=24, chunks=12),
 }
 T_RULE = {"recv_end/ok": "QueueOrder", "recv_end/eos": "DrainThenEos", "recv_end/pending": "NoLostWakeup",
           "teardown": "NoLeakNoDoubleFree", "send_end": "CallResult"}
